@@ -118,13 +118,30 @@ func suiteMigrate(c *Ctx) error {
 	var mcases []mcase
 	seen := map[string]bool{}
 	for ci, n := range sizes {
-		for variant := 0; variant < 2; variant++ {
+		for variant := 0; variant < 3; variant++ {
 			rr := r.Fork()
 			var l []detection.Signature
 			for i := 0; i < n; i++ {
 				l = append(l, genMigSig(rr, fmt.Sprintf("SIG-%05d", i)))
 			}
 			name := fmt.Sprintf("n%d-distinct", n)
+			if variant == 2 {
+				// IDs that are proper prefixes of their successors (a revision suffix): SIG-00007 / SIG-00007-r2,
+				// shifted by one leading ID so that the 1000th, 2000th, ... ID in sorted order is a base ID
+				// whose revision comes right after it
+				if n < 1000 {
+					continue
+				}
+				name = fmt.Sprintf("n%d-revision-suffixes", n)
+				l = l[:0]
+				l = append(l, genMigSig(rr, "AAA-first"))
+				for i := 0; len(l) < n; i++ {
+					l = append(l, genMigSig(rr, fmt.Sprintf("SIG-%05d", i)))
+					if len(l) < n {
+						l = append(l, genMigSig(rr, fmt.Sprintf("SIG-%05d-r2", i)))
+					}
+				}
+			}
 			if variant == 1 && n >= 2 {
 				name = fmt.Sprintf("n%d-repeats", n)
 				// repeated IDs: adjacent, far apart (across batch boundaries when n > 1000), and a triple
